@@ -138,7 +138,8 @@ def run_case(case: dict) -> dict:
                 rs = (rebuilt["stages"].get(s.id) or {}).get("status") or "NOT_STARTED"
                 obs["entities_compared"] += 1
                 if rs != s.status.name:
-                    out.append(viol(f"C12/stage-status-differs:{s.status.name}-vs-{rs}", f"stage {s.context.get('_v', {}).get('ref', s.ref_id)}: store {s.status.name}, replay {rs} (last written by {sorted(writers)})"))
+                    by = "+".join(sorted(w_ for w_ in writers if w_)) or "?"
+                    out.append(viol(f"C12/stage-status-differs:{s.status.name}-vs-{rs}:last-written-by-{by}", f"stage {s.context.get('_v', {}).get('ref', s.ref_id)}: store {s.status.name}, replay {rs} (last written by {sorted(writers)})"))
                 for t in s.tasks:
                     lt = last_row.get(t.id)
                     gt = groups.of(lt["seq"]) if lt else -1
